@@ -2,6 +2,7 @@
    Only statements; proofs are in Proofs/. *)
 From Coq Require Import List NArith ZArith Permutation.
 Require Import Base Mol Canon Pipeline MolProofs SameMol CanonProofs CanonView TucanProofs.
+Require ParamsSpec.   (* regenerated source constants still match what the model hard-codes *)
 
 (* For every canonical-labelling oracle meeting the bliss contract (H1: bijection onto 0..n-1;
    H2: colour-isomorphic inputs get the same labelled coloured graph), two descriptions of one
